@@ -1,52 +1,455 @@
-(* C15 model: built-in key types -- values, encodings, byte-level comparison and separators.
+(* C15 model: redb's built-in key types -- values, encodings (Value::as_bytes), strict decoding
+   (Value::from_bytes on well-formed input), the order of the VALUES, and the byte-level
+   Key::compare / Key::separator / Key::min_encoded_key / Value::fixed_width / branch_separator,
+   by structural recursion on the type, so every nesting is covered.
+   Sources mirrored: src/types.rs, src/tuple_types.rs, src/complex_types.rs (varint),
+   src/types/uuid.rs, src/tree_store/btree_base.rs (branch_separator).
    Definitions only (proofs in KeyTypesP.v) so the model still extracts when a proof breaks. *)
 From RV Require Import Base.Bytes.
+From RV.Types Require Import Utf8.
 Open Scope N_scope.
 
-Inductive kty := TU64 | TBytes.
+(* ---------------------------------------------------------------- types and values *)
 
-Inductive val := VU64 (n : N) | VBytes (b : bytes).
+Inductive kty :=
+| TUnit                        (* ()                                  *)
+| TBool                        (* bool                                *)
+| TChar                        (* char: 3 bytes LE                    *)
+| TU (w : nat)                 (* u8..u128: w = 1,2,4,8,16 bytes LE   *)
+| TI (w : nat)                 (* i8..i128: two's complement LE       *)
+| TStr                         (* &str and String (same encoding)     *)
+| TBytes                       (* &[u8]                               *)
+| TFixedBytes (n : nat)        (* &[u8; N]                            *)
+| TOpt (t : kty)               (* Option<T>                           *)
+| TArr (n : nat) (t : kty)     (* [T; N]                              *)
+| TTup (ts : list kty).        (* (T0,), (T0,T1), ... (T0..T11)       *)
 
-Definition has_type (t : kty) (v : val) : Prop :=
+(* uuid::Uuid (feature "uuid"): 16 bytes compared as bytes -- the same codec as &[u8;16] *)
+Definition TUuid : kty := TFixedBytes 16.
+
+Inductive val :=
+| VUnit
+| VBool (b : bool)
+| VChar (c : N)                (* Unicode scalar value *)
+| VU (n : N)
+| VI (z : Z)
+| VStr (s : list N)            (* the string's chars as Unicode scalar values *)
+| VBytes (b : bytes)
+| VNone
+| VSome (v : val)
+| VList (vs : list val).       (* arrays and tuples *)
+
+(* the Rust types that exist: integer widths, tuple arity 1..12 *)
+Definition int_width (w : nat) : bool :=
+  match w with 1 | 2 | 4 | 8 | 16 => true | _ => false end%nat.
+
+Fixpoint wf_ty (t : kty) : bool :=
+  match t with
+  | TU w | TI w => int_width w
+  | TOpt t' => wf_ty t'
+  | TArr _ t' => wf_ty t'
+  | TTup ts => Nat.leb 1 (length ts) && Nat.leb (length ts) 12 && forallb wf_ty ts
+  | _ => true
+  end.
+
+(* ---------------------------------------------------------------- small helpers *)
+
+Definition blen (b : bytes) : N := N.of_nat (length b).
+
+Definition zipw {A B C} (f : A -> B -> C) : list A -> list B -> list C :=
+  fix go (l1 : list A) (l2 : list B) : list C :=
+    match l1, l2 with
+    | a :: l1', b :: l2' => f a b :: go l1' l2'
+    | _, _ => []
+    end.
+
+Definition opt_all {A} : list (option A) -> option (list A) :=
+  fix go (l : list (option A)) : option (list A) :=
+    match l with
+    | [] => Some []
+    | Some a :: r => option_map (cons a) (go r)
+    | None :: _ => None
+    end.
+
+(* lexicographic comparison with a per-position comparison function *)
+Definition lexc3 {T A} (f : T -> A -> A -> comparison) : list T -> list A -> list A -> comparison :=
+  fix go (ts : list T) (a b : list A) : comparison :=
+    match ts, a, b with
+    | t :: ts', x :: a', y :: b' => match f t x y with Eq => go ts' a' b' | c => c end
+    | _, _, _ => Eq
+    end.
+
+Definition sum_widths : list (option nat) -> option nat :=
+  fix go (l : list (option nat)) : option nat :=
+    match l with
+    | [] => Some O
+    | Some a :: r => option_map (Nat.add a) (go r)
+    | None :: _ => None
+    end.
+
+Definition is_some {A} (o : option A) : bool := match o with Some _ => true | None => false end.
+
+Definition bytes_eqb (a b : bytes) : bool := match lex_cmp a b with Eq => true | _ => false end.
+
+(* ---------------------------------------------------------------- Value::fixed_width *)
+
+Fixpoint fixed_width (t : kty) : option nat :=
+  match t with
+  | TUnit => Some 0%nat
+  | TBool => Some 1%nat
+  | TChar => Some 3%nat
+  | TU w | TI w => Some w
+  | TStr | TBytes => None
+  | TFixedBytes n => Some n
+  | TOpt t' => option_map S (fixed_width t')
+  | TArr n t' => option_map (fun x => (x * n)%nat) (fixed_width t')
+  | TTup ts => sum_widths (map fixed_width ts)
+  end.
+
+(* ---------------------------------------------------------------- complex_types.rs: varint lengths *)
+
+Definition encode_varint_len (n : N) : bytes :=
+  if n <? 254 then [n]
+  else if n <=? 65535 then 254 :: le_encode 2 n
+  else 255 :: le_encode 4 n.
+
+(* (decoded length, rest of the data after the varint) *)
+Definition decode_varint_len (d : bytes) : option (N * bytes) :=
+  match d with
+  | [] => None
+  | b :: r =>
+      if b <? 254 then Some (b, r)
+      else if b =? 254 then
+        (if Nat.leb 2 (length r) then Some (le_decode (firstn 2 r), skipn 2 r) else None)
+      else
+        (if Nat.leb 4 (length r) then Some (le_decode (firstn 4 r), skipn 4 r) else None)
+  end.
+
+(* ---------------------------------------------------------------- arrays of variable width elements:
+   N little-endian u32 END offsets, then the elements *)
+
+Fixpoint arr_offsets (start : N) (es : list bytes) : bytes :=
+  match es with
+  | [] => []
+  | e :: r => let e' := start + blen e in le_encode 4 e' ++ arr_offsets e' r
+  end.
+
+Definition arr_assemble (es : list bytes) : bytes :=
+  arr_offsets (4 * N.of_nat (length es)) es ++ concat es.
+
+Fixpoint arr_ends (n : nat) (d : bytes) : list N :=
+  match n with
+  | O => []
+  | S n' => le_decode (firstn 4 d) :: arr_ends n' (skipn 4 d)
+  end.
+
+Fixpoint arr_slices (d : bytes) (start : N) (ends : list N) : option (list bytes) :=
+  match ends with
+  | [] => if start =? blen d then Some [] else None
+  | e :: r =>
+      if (start <=? e) && (e <=? blen d)
+      then option_map (cons (firstn (N.to_nat (e - start)) (skipn (N.to_nat start) d))) (arr_slices d e r)
+      else None
+  end.
+
+(* the elements of an array encoding (array_element for every index), None when malformed *)
+Definition arr_split (n : nat) (d : bytes) : option (list bytes) :=
+  if Nat.leb (4 * n) (length d) then arr_slices d (4 * N.of_nat n) (arr_ends n d) else None.
+
+(* fixed width elements: n chunks of w bytes *)
+Fixpoint chunks (n w : nat) (d : bytes) : list bytes :=
+  match n with
+  | O => []
+  | S n' => firstn w d :: chunks n' w (skipn w d)
+  end.
+
+(* ---------------------------------------------------------------- tuples:
+   varint lengths of every variable width element except the last, then the elements *)
+
+Fixpoint tup_header (fws : list (option nat)) (es : list bytes) : bytes :=
+  match fws, es with
+  | fw :: fws', e :: es' =>
+      match fws' with
+      | [] => []
+      | _ => (match fw with None => encode_varint_len (blen e) | Some _ => [] end) ++ tup_header fws' es'
+      end
+  | _, _ => []
+  end.
+
+(* parse_lens: the lengths of all but the last element, and the data after the header *)
+Fixpoint tup_lens (fws : list (option nat)) (d : bytes) : option (list nat * bytes) :=
+  match fws with
+  | [] => Some ([], d)
+  | fw :: fws' =>
+      match fws' with
+      | [] => Some ([], d)
+      | _ =>
+        match fw with
+        | Some w => match tup_lens fws' d with Some (ls, d') => Some (w :: ls, d') | None => None end
+        | None =>
+            match decode_varint_len d with
+            | Some (len, d1) =>
+                if len <=? blen d1
+                then match tup_lens fws' d1 with Some (ls, d') => Some (N.to_nat len :: ls, d') | None => None end
+                else None
+            | None => None
+            end
+        end
+      end
+  end.
+
+(* consecutive slices of the given lengths, the last element takes the rest *)
+Fixpoint take_seq (ls : list nat) (d : bytes) : option (list bytes) :=
+  match ls with
+  | [] => Some [d]
+  | n :: r => if Nat.leb n (length d) then option_map (cons (firstn n d)) (take_seq r (skipn n d)) else None
+  end.
+
+Definition tup_split (fws : list (option nat)) (d : bytes) : option (list bytes) :=
+  match tup_lens fws d with
+  | Some (ls, d') => take_seq ls d'
+  | None => None
+  end.
+
+(* ---------------------------------------------------------------- Value::as_bytes *)
+
+Definition int_mod (w : nat) : N := 256 ^ N.of_nat w.
+Definition int_half (w : nat) : N := int_mod w / 2.
+
+Fixpoint encode (t : kty) (v : val) : bytes :=
   match t, v with
-  | TU64, VU64 n => n < 2 ^ 64
-  | TBytes, VBytes b => all_bytes b = true
-  | _, _ => False
+  | TUnit, _ => []
+  | TBool, VBool b => [if b then 1 else 0]
+  | TChar, VChar c => le_encode 3 c
+  | TU w, VU n => le_encode w n
+  | TI w, VI z => le_encode w (Z.to_N (z mod Z.of_N (int_mod w)))
+  | TStr, VStr s => utf8_encode s
+  | TBytes, VBytes b => b
+  | TFixedBytes _, VBytes b => b
+  | TOpt t', VNone => 0 :: match fixed_width t' with Some w => repeat 0 w | None => [] end
+  | TOpt t', VSome x => 1 :: encode t' x
+  | TArr n t', VList vs =>
+      let es := map (encode t') vs in
+      match fixed_width t' with
+      | Some _ => concat es
+      | None => arr_assemble es
+      end
+  | TTup ts, VList vs =>
+      let es := zipw encode ts vs in
+      tup_header (map fixed_width ts) es ++ concat es
+  | _, _ => []
   end.
 
-Definition encode (t : kty) (v : val) : bytes :=
-  match v with
-  | VU64 n => le_encode 8 n
-  | VBytes b => b
+(* ---------------------------------------------------------------- has_type *)
+
+Definition size_ok (b : bytes) : bool := blen b <? 4294967296.
+
+Fixpoint wt (t : kty) (v : val) : bool :=
+  match t, v with
+  | TUnit, VUnit => true
+  | TBool, VBool _ => true
+  | TChar, VChar c => is_scalar c
+  | TU w, VU n => n <? int_mod w
+  | TI w, VI z => ((- Z.of_N (int_half w) <=? z) && (z <? Z.of_N (int_half w)))%Z
+  | TStr, VStr s => forallb is_scalar s
+  | TBytes, VBytes b => all_bytes b
+  | TFixedBytes n, VBytes b => all_bytes b && Nat.eqb (length b) n
+  | TOpt _, VNone => true
+  | TOpt t', VSome x => wt t' x
+  | TArr n t', VList vs =>
+      Nat.eqb (length vs) n && forallb (wt t') vs &&
+      (* end offsets are u32 (the Rust code panics beyond; keys are < 4 GiB anyway) *)
+      size_ok (encode (TArr n t') (VList vs))
+  | TTup ts, VList vs =>
+      Nat.eqb (length vs) (length ts) && forallb (fun b : bool => b) (zipw wt ts vs) &&
+      size_ok (encode (TTup ts) (VList vs))
+  | _, _ => false
   end.
 
-Definition decode (t : kty) (b : bytes) : option val :=
+Definition has_type (t : kty) (v : val) : Prop := wt t v = true.
+
+(* ---------------------------------------------------------------- Value::from_bytes (strict) *)
+
+Definition to_signed (w : nat) (u : N) : Z :=
+  if u <? int_half w then Z.of_N u else (Z.of_N u - Z.of_N (int_mod w))%Z.
+
+Fixpoint decode (t : kty) (d : bytes) : option val :=
   match t with
-  | TU64 => if Nat.eqb (length b) 8 then Some (VU64 (le_decode b)) else None
-  | TBytes => Some (VBytes b)
+  | TUnit => match d with [] => Some VUnit | _ => None end
+  | TBool => match d with [b] => if b =? 0 then Some (VBool false) else if b =? 1 then Some (VBool true) else None | _ => None end
+  | TChar => if Nat.eqb (length d) 3 && is_scalar (le_decode d) then Some (VChar (le_decode d)) else None
+  | TU w => if Nat.eqb (length d) w then Some (VU (le_decode d)) else None
+  | TI w => if Nat.eqb (length d) w then Some (VI (to_signed w (le_decode d))) else None
+  | TStr => option_map VStr (utf8_decode d)
+  | TBytes => Some (VBytes d)
+  | TFixedBytes n => if Nat.eqb (length d) n then Some (VBytes d) else None
+  | TOpt t' =>
+      match d with
+      | tag :: p =>
+          if tag =? 0 then
+            (if bytes_eqb p (match fixed_width t' with Some w => repeat 0 w | None => [] end)
+             then Some VNone else None)
+          else if tag =? 1 then option_map VSome (decode t' p)
+          else None
+      | [] => None
+      end
+  | TArr n t' =>
+      match fixed_width t' with
+      | Some w =>
+          if Nat.eqb (length d) (w * n)
+          then option_map VList (opt_all (map (decode t') (chunks n w d)))
+          else None
+      | None =>
+          match arr_split n d with
+          | Some es => option_map VList (opt_all (map (decode t') es))
+          | None => None
+          end
+      end
+  | TTup ts =>
+      match tup_split (map fixed_width ts) d with
+      | Some es => if Nat.eqb (length es) (length ts) then option_map VList (opt_all (zipw decode ts es)) else None
+      | None => None
+      end
   end.
 
-(* the order of the VALUES *)
-Definition vcompare (t : kty) (a b : val) : comparison :=
+(* ---------------------------------------------------------------- the order of the VALUES *)
+
+Definition bool_cmp (a b : bool) : comparison :=
   match a, b with
-  | VU64 x, VU64 y => x ?= y
-  | VBytes x, VBytes y => lex_cmp x y
-  | VU64 _, VBytes _ => Lt
-  | VBytes _, VU64 _ => Gt
+  | false, true => Lt
+  | true, false => Gt
+  | _, _ => Eq
   end.
 
-(* the byte-level comparison the Rust code performs on encodings (Key::compare) *)
-Definition kcompare (t : kty) (d1 d2 : bytes) : comparison :=
-  match t with
-  | TU64 => le_decode d1 ?= le_decode d2       (* u64::from_le_bytes(d1).cmp(..) *)
-  | TBytes => lex_cmp d1 d2                      (* data1.cmp(data2) *)
+Fixpoint vcompare (t : kty) (a b : val) : comparison :=
+  match t, a, b with
+  | TBool, VBool x, VBool y => bool_cmp x y            (* false < true *)
+  | TChar, VChar x, VChar y => x ?= y                  (* by scalar value *)
+  | TU _, VU x, VU y => x ?= y                         (* numerically *)
+  | TI _, VI x, VI y => (x ?= y)%Z                     (* numerically, signed *)
+  | TStr, VStr x, VStr y => lexc N.compare x y         (* lexicographic by char *)
+  | TBytes, VBytes x, VBytes y => lex_cmp x y          (* lexicographic by byte *)
+  | TFixedBytes _, VBytes x, VBytes y => lex_cmp x y
+  | TOpt _, VNone, VNone => Eq                         (* None < Some _ *)
+  | TOpt _, VNone, VSome _ => Lt
+  | TOpt _, VSome _, VNone => Gt
+  | TOpt t', VSome x, VSome y => vcompare t' x y
+  | TArr _ t', VList x, VList y => lexc (vcompare t') x y     (* lexicographic by element *)
+  | TTup ts, VList x, VList y => lexc3 vcompare ts x y
+  | _, _, _ => Eq
   end.
 
-(* Key::separator *)
-Definition separator (t : kty) (l r : bytes) : bytes :=
+(* ---------------------------------------------------------------- Key::compare on encodings *)
+
+Fixpoint kcompare (t : kty) (d1 d2 : bytes) : comparison :=
   match t with
-  | TU64 => l                                    (* default impl: left *)
-  | TBytes =>
-      let n := S (common_prefix_len l r) in
-      if andb (Nat.ltb n (length l)) (Nat.ltb n (length r)) then firstn n r else l
+  | TUnit => Eq
+  | TBool => hd 0 d1 ?= hd 0 d2                         (* from_bytes(data)[0] as bool, then cmp *)
+  | TChar => le_decode (firstn 3 d1) ?= le_decode (firstn 3 d2)
+  | TU _ => le_decode d1 ?= le_decode d2
+  | TI w => (to_signed w (le_decode d1) ?= to_signed w (le_decode d2))%Z
+  | TStr => lex_cmp d1 d2                               (* str::cmp compares the UTF-8 bytes *)
+  | TBytes => lex_cmp d1 d2
+  | TFixedBytes _ => lex_cmp d1 d2
+  | TOpt t' =>
+      if hd 0 d1 =? 0 then (if hd 0 d2 =? 0 then Eq else Lt)
+      else if hd 0 d2 =? 0 then Gt else kcompare t' (tl d1) (tl d2)
+  | TArr n t' =>
+      match fixed_width t' with
+      | Some w => lexc (kcompare t') (chunks n w d1) (chunks n w d2)
+      | None =>
+          match arr_split n d1, arr_split n d2 with
+          | Some e1, Some e2 => lexc (kcompare t') e1 e2
+          | _, _ => Eq     (* the Rust code panics on a malformed encoding *)
+          end
+      end
+  | TTup ts =>
+      match tup_split (map fixed_width ts) d1, tup_split (map fixed_width ts) d2 with
+      | Some e1, Some e2 => lexc3 kcompare ts e1 e2
+      | _, _ => Eq
+      end
+  end.
+
+(* ---------------------------------------------------------------- Key::min_encoded_key *)
+
+Fixpoint min_encoded_key (t : kty) : option bytes :=
+  match t with
+  | TStr | TBytes => Some []
+  | TOpt t' => Some (0 :: match fixed_width t' with Some w => repeat 0 w | None => [] end)
+  | TTup [t'] => min_encoded_key t'
+  | _ => None
+  end.
+
+(* ---------------------------------------------------------------- Key::separator *)
+
+(* <&[u8]>::separator *)
+Definition bytes_sep (l r : bytes) : bytes :=
+  let n := S (common_prefix_len l r) in
+  if (Nat.ltb n (length l) && Nat.ltb n (length r))%bool then firstn n r else l.
+
+(* the element list of <[T;N]>::separator: elements before the first differing one from `left`,
+   the element separator, then the tail (replaced by the minimum when allowed) *)
+Definition arr_sep_elems (cmp : bytes -> bytes -> comparison) (sep : bytes -> bytes -> bytes)
+                         (minkey : option bytes) : list bytes -> list bytes -> option (list bytes) :=
+  fix go (els ers : list bytes) : option (list bytes) :=
+    match els, ers with
+    | le :: els', re :: ers' =>
+        match cmp le re with
+        | Eq => option_map (cons le) (go els' ers')
+        | _ =>
+            let s := sep le re in
+            let replaces_tail :=
+              (match els' with [] => false | _ => true end) &&
+              (match cmp le s with Lt => true | _ => false end) in
+            let tail :=
+              match (if replaces_tail then minkey else None) with
+              | Some m => map (fun _ => m) els'
+              | None => els'
+              end in
+            Some (s :: tail)
+        end
+    | _, _ => None
+    end.
+
+Fixpoint separator (t : kty) (l r : bytes) : bytes :=
+  match t with
+  | TBytes => bytes_sep l r
+  | TStr => str_sep l r
+  | TOpt t' =>
+      match fixed_width t' with
+      | Some _ => l
+      | None =>
+          match l with
+          | [] => l
+          | tag :: lp =>
+              if tag =? 0 then l
+              else
+                let p := separator t' lp (tl r) in
+                if Nat.leb (length l) (S (length p)) then l else 1 :: p
+          end
+      end
+  | TArr n t' =>
+      match fixed_width t' with
+      | Some _ => l
+      | None =>
+          match arr_split n l, arr_split n r with
+          | Some els, Some ers =>
+              match arr_sep_elems (kcompare t') (separator t') (min_encoded_key t') els ers with
+              | Some elements =>
+                  if Nat.leb (length l) (4 * n + length (concat elements)) then l
+                  else arr_assemble elements
+              | None => l
+              end
+          | _, _ => l
+          end
+      end
+  | _ => l       (* default implementation (all fixed width types, and tuples) *)
+  end.
+
+(* ---------------------------------------------------------------- btree_base.rs: branch_separator *)
+
+Definition branch_separator (t : kty) (l r : bytes) : bytes :=
+  match fixed_width t with
+  | Some _ => l
+  | None => separator t l r
   end.
